@@ -331,6 +331,22 @@ def run(ctx):
                    "loop over getProperAncestors(state, ancestor): %s" % ok)
     ctx.guard("R01.5", r5)
 
+    # ---------------------------------------------------------------- R01.9 two passes
+    ctx.rule("R01.9", "in addDescendantStatesToEnter the descendants of every target state are added before the ancestors of any of them: "
+                      "no loop contains both an addDescendantStatesToEnter and an addAncestorStatesToEnter call (ancestor completion default-enters "
+                      "sibling regions which a later target would have filled: the W3C pseudo-code uses two loops at all three places)")
+
+    def r9():
+        fn = F.fn(ALG + "addDescendantStatesToEnter")
+        anc = fn.calls(ALG + "addAncestorStatesToEnter")
+        ctx.floor("R01.9", "addAncestorStatesToEnter calls in addDescendantStatesToEnter", len(anc), 3)
+        for i, a in enumerate(anc):
+            loops = [l for l in hirq.enclosing_loops(fn, a) if l.get("k") == "for"]
+            mixed = bool(loops) and bool(fn.calls(ALG + "addDescendantStatesToEnter", root=loops[0]["body"]))
+            ctx.ob("R01.9", site_key(fn, "ancestor pass is a loop of its own", i), bool(loops) and not mixed, line_of(a),
+                   "the loop around this addAncestorStatesToEnter call %s" % ("also calls addDescendantStatesToEnter" if mixed else "contains no addDescendantStatesToEnter call"))
+    ctx.guard("R01.9", r9)
+
     # ---------------------------------------------------------------- R01.6 reader: history is never a child state
     ctx.rule("R01.6", "State.states (children) is pushed only in the reader's get_or_create_state_with_attributes under parent != 0 "
                       "(and by the deserializer); start_history creates its state with parent 0 and registers it in State.history only")
